@@ -380,7 +380,11 @@ let cmd_gen ?(auto=false) file =
           (if r.s_recover then 1 else 0) (String.concat " " (List.map (fun z -> string_of_int (int_of_z z)) r.s_gotos)))
       | None -> print_endline base) an.a_items in
   if auto then
-    (* mode -a: "AUTO <announced conflicts>" then the rows with the RESOLVED action cells, or "REFUSED" *)
+    (* mode -a: "AUTO <announced conflicts>" then the rows with the RESOLVED action cells, or "REFUSED"; first the exit status
+       GenAuto.gocc_exit predicts without and with -a ("EXIT <plain> <auto>", -1 = undecided) *)
+    let ex a = match gocc_exit g (nat_of_int_tr nn) (nat_of_int_tr ntm) symbols la pacts (nat_of_int_tr terr) a (nat_of_int_tr 100000) with
+      | Some n -> int_of_nat n | None -> -1 in
+    print_endline (Printf.sprintf "EXIT %d %d" (ex false) (ex true));
     match gen_run_auto g (nat_of_int_tr nn) (nat_of_int_tr ntm) symbols la pacts (nat_of_int_tr terr) (nat_of_int_tr 100000) with
     | AutoOk (tb, an, tr, n) -> print_endline ("AUTO " ^ string_of_int (int_of_nat n)); show_auto an tr (Some tb)
     | AutoRefused (an, tr) -> print_endline "REFUSED"; show_auto an tr None
